@@ -9,7 +9,13 @@ template <class S> using G_SE3 = manif::SE3<S>;
 template <class S> using G_SE23 = manif::SE_2_3<S>;
 template <class S> using G_SGAL3 = manif::SGal3<S>;
 template <class S> using G_R1 = manif::Rn<S, 1>;
+template <class S> using G_R2 = manif::Rn<S, 2>;
 template <class S> using G_R3 = manif::Rn<S, 3>;
+template <class S> using G_R4 = manif::Rn<S, 4>;
+template <class S> using G_R5 = manif::Rn<S, 5>;
+template <class S> using G_R6 = manif::Rn<S, 6>;
+template <class S> using G_R7 = manif::Rn<S, 7>;
+template <class S> using G_R8 = manif::Rn<S, 8>;
 template <class S> using G_R9 = manif::Rn<S, 9>;
 // Bundle layouts: the 7 cyclic triples of (SO2 SE2 SO3 SE3 SE_2_3 SGal3 R3) -> every group first, middle, last
 template <class S> using G_BT0 = manif::Bundle<S, manif::SO2, manif::SE2, manif::SO3>;
